@@ -1,5 +1,6 @@
 import ArcSwapModel.M.Frame
 import ArcSwapModel.Inv.ListInv
+import ArcSwapModel.Inv.Solo
 import ArcSwapModel.Props.C08
 import ArcSwapModel.Tie.DebtPayAll
 import ArcSwapModel.Tie.HelpingHelp
@@ -17,8 +18,9 @@ import ArcSwapModel.Tie.Sites
 
 /-!
 # C09 — writers and guards never block
-(partial: no state waits, and every retry is caused by another thread's progress; the composition
-into one solo step bound is not proved yet — see the end)
+(partial: no state waits, every retry is caused by another thread's progress, and the writer's walk
+running alone ends within `25·nodes + 4` own steps when no reader is inside its fallback window —
+see the end for what is not composed)
 
 The crate has exactly four retry loops outside the (wait-free) read path: the writer's helping loop
 (`Slots::help`), the `LIST_HEAD` compare-exchange loop of `Node::get`, the loop of
@@ -123,12 +125,30 @@ theorem C09_walk_road_finite {st : State} (h : Reachable st) :
   exact ⟨L, hL, chainFrom_nodup hL.1, hL.length_le, fun n hn => chainFrom_next hL.1 n hn,
     fun sched => hL.run (OwnInv.reachable h) sched⟩
 
+/-- **the writer's walk, running alone, ends — a bound for lists of any length.**  In every
+    reachable state, a `store`/`swap` that has just exchanged the pointer and starts its walk, with
+    every other thread frozen wherever it is and no reader inside its fallback window (all control
+    words idle), reaches the end of the walk within `25 · nNodes + 4` of its own steps. -/
+theorem C09_walk_bound_reachable {st : State} (h : Reachable st) (t c out old : Nat) (isStore : Bool)
+    (hop : (st.th t).op = .swapPay c out old isStore .start) (hnode : (st.th t).loc.node.isSome = true)
+    (hq : ∀ m, (st.sh.nodes m).control = .idle) :
+    ∃ k, k ≤ 25 * st.sh.nNodes + 4 ∧ ((solo st t k).th t).op = .swapPay c out old isStore .fin :=
+  walk_bound_reachable h t c out old isStore hop hnode hq
+
+/-- the same from any shared state whose list is a chain `L` of quiet nodes: `25 · |L| + 4` -/
+theorem C09_walk_bound_from_start (st : State) (t c out old : Nat) (isStore : Bool) (L : List Nat)
+    (hop : (st.th t).op = .swapPay c out old isStore .start) (hroad : Road st.sh st.sh.head L)
+    (hnode : (st.th t).loc.node.isSome = true) :
+    ∃ k, k ≤ 25 * L.length + 4 ∧ ((solo st t k).th t).op = .swapPay c out old isStore .fin :=
+  walk_bound_from_start st t c out old isStore L hop hroad hnode
+
 /-!
-Not proved yet: the composed solo bound `soloFuel ≤ c₁·nodes + c₂` (besides the lemmas above and the
-list invariant it needs that the steps of the nested load do not modify the helped node's control
-word).  The harness checks the bound
-directly: from intermediate states sampled by the scheduler, all threads but one are frozen and
-that one must finish its operation within `60 + 40·(nodes+1)` steps (`solo*` families).
+Not composed into the bound: a walk that meets a reader inside its fallback window (the walker then
+helps: a nested load and a hand-over attempt — bounded too, but the helping loop goes round again
+when the reader moves, `help_retry_means_interference`), and the operations around the walk
+(`compare_and_swap`'s and `rcu`'s retry loops).  The harness checks the bound directly: from
+intermediate states sampled by the scheduler, all threads but one are frozen and that one must
+finish its operation within `60 + 40·(nodes+1)` steps (`solo*` families).
 -/
 
 end C09
